@@ -17,6 +17,7 @@ with no consumer / mapped function pending; callback-missing / callback-twice at
 from ..sched import Violation, Injected
 from .. import spar
 from ._pipes import PipeScenario, JoinScenario, flat, needs_clock, parse, parity
+from ..threads import ThreadedMixin
 
 MOD = __name__
 
@@ -115,7 +116,7 @@ class RefMixin:
                 collected = []
         pending = set(x for _, b in open_batches for x in flat(b))
         held = {}
-        if name in ("direct", "map"):
+        if name in ("direct", "map", "flatten2"):
             pass
         elif name in ("buffer", "delay", "rate_limit", "map_async", "timed_window", "partition", "lossless"):
             for x in emitted:
@@ -319,7 +320,10 @@ class RefChain(_GateFailures, RefMixin, PipeScenario):
             from streamz import Stream
             p = self.params
             self.src = Stream(asynchronous=True, loop=self.ioloop)
-            self.side = self.src.sink(self.make_sink_fn("sync", "F"))
+            if "dead" in p.get("opts", ()):
+                self.side = self.src.map(lambda x: x)        # a node nobody consumes from (used for its side effect)
+            else:
+                self.side = self.src.sink(self.make_sink_fn("sync", "F"))
             node = self.src
             self.nodes = []
             for spec in p["nodes"]:
@@ -381,6 +385,40 @@ class RefChain(_GateFailures, RefMixin, PipeScenario):
         return self.params.get("fail") and "Injected" in (err[1] + err[2])
 
 
+class RefThreaded(ThreadedMixin, RefChain):
+    """blocking emit from a real thread (baton) with counters on the elements"""
+
+    def build(self):
+        from streamz import Stream
+        p = self.params
+        self.setup_threads()
+        self.src = Stream(asynchronous=False)
+        node = self.src
+        self.nodes = []
+        for spec in p["nodes"]:
+            node = self.build_node(node, spec)
+            self.nodes.append(node)
+        self.last = node
+        self.attach_sink(node)
+        self.add_emitter("p", self.src, list(range(1, p["n"] + 1)), metadata=self.md)
+
+    def finish(self):
+        self.teardown_threads()
+
+    def extra_events(self):
+        return self.thread_events()
+
+    def closing_events(self):
+        ev = self.thread_events()
+        return ev[0] if ev else None
+
+    def on_emit_done(self, *a):
+        pass
+
+    def on_emit_raised(self, emitter, i, x, e):
+        self.violations.append(Violation("emit-raised", self.site(), type(e).__name__, str(e)[:200]))
+
+
 class RefJoin(_GateFailures, RefMixin, JoinScenario):
     close_intervals = 4.0
     horizon = 0.0
@@ -415,7 +453,9 @@ def factory(key):
         _, _, node, kind, mode, n, fail = key[:7]
         items = key[7] if len(key) > 7 and isinstance(key[7], tuple) else None
         opts = tuple(key[7].split("+")) if (len(key) > 7 and isinstance(key[7], str)) else ()
-        fan = 1 if "fan" in opts else 0
+        fan = 1 if ("fan" in opts or "dead" in opts) else 0
+        if "threaded" in opts:
+            return lambda: RefThreaded(prop=prop, nodes=tuple(node.split(",")), kind=kind, mode=mode, n=n, fail=0, opts=opts)
         return lambda: RefChain(prop=prop, nodes=tuple(node.split(",")), kind=kind, mode=mode, n=n, fail=fail,
                                 items=list(items) if items else None, fan=fan, opts=opts)
     _, _, join, kind, mode, n, fail = key
@@ -480,6 +520,17 @@ def plan(ctx, prop="C04"):
             jobs.append(((prop, "chain", node, "native", "await", 2, 0), 1))
         if node != "direct":
             jobs.append(((prop, "chain", node, "sync", "await", 2, 0), 1))
+    # synchronous consumers behind the timing nodes; a consumer that is busy with one piece and done with the next
+    for node in ("timed_window:1", "delay:1", "rate_limit:1", "timed_window_unique:1:parity:last", "partition:2:1", "latest"):
+        jobs.append(((prop, "chain", node, "sync", "burst", 3, 0), 1 if T else 0))
+    for node in ("flatten2", "direct", "map", "sliding_window:2"):
+        jobs.append(((prop, "chain", node, "alt", "await", 2, 0), 1))
+    # a node nobody consumes from, next to the pipeline
+    for node in ("direct", "buffer:1"):
+        jobs.append(((prop, "chain", node, "future", "await", 2, 0, "dead"), 1))
+    # blocking emit from a thread with counters on the elements
+    for node in ("direct", "map", "buffer:1"):
+        jobs.append(((prop, "chain", node, "future", "await", 2, 0, "threaded"), 1))
     # a consumer whose awaitable is already complete when it is handed back
     for node in ("direct", "map", "buffer:1", "map_async:1", "sliding_window:2", "partition:2"):
         jobs.append(((prop, "chain", node, "done", "await", 3, 0), 1))
